@@ -34,6 +34,8 @@ CLAIMED = {
          'One symbolic character over all 1,114,112 code points decides the per-character clauses against the interpreter\'s unicodedata tables (all violating code points are enumerated); symbolic strings and deletechars decide order/count, absence of deleted characters and idempotence; per module, doctest-valid presentations and symbolic ASCII inputs with one symbolic look-alike at a symbolic position must validate like the ASCII spelling.', '5 C14'),
  'C18': ('symbolic execution of the real WSGI application (online_check/stdnum.wsgi loaded through the transform) on a symbolic number parameter, one format module at a time + z3 obligations',
          'For every number module, HTML and JSON mode: on every path of application() over a symbolic submitted number (fully symbolic strings of the corpus length, plus neighbourhoods of doctest-valid presentations) no exception escapes, start_response is called once with 200 OK, the JSON tree is serialisable and lists the module exactly when is_valid accepts, and every still-symbolic character of the HTML body is provably not one of & < > " \'. parse_qs, json.dumps and html.escape are stubs/models (listed in the evidence); modules are handled one at a time.', '5 C18'),
+ 'C16': ('symbolic execution of the real gs1_128.encode()/info()/validate() per application identifier with symbolic typed values (str / int / Decimal / date / datetime models) + z3 equalities',
+         'For each of the ~210 registered AIs alone, each AI followed by AI 21, and sampled pairs/triples: values symbolic within the declared format; info(encode(m)) == m, validate(encode(m)) returns, decodes to the same mapping and is a fixed point, with and without separator and parentheses; foreign exceptions from encode/info are violations. Every path\'s witness mapping is replayed through the real encode. Bounded value lengths/variants; parentheses inside values excluded (documented).', '5 C16'),
  'C17': ('paired symbolic runs of the real validate() on a symbolic valid number and its single-character substitution / adjacent transposition, with cut points and solver-proven injectivity lemmas; z3',
          'For ISBN, EAN, ISSN, ISMN, IMEI, ISNI, IBAN (per country), LEI, ISO 11649, GRid and the listed Luhn/Verhoeff/ISO 7064 protected national numbers: for a symbolic valid number of each explored length and every position, the solver shows that every same-class single substitution (and, where promised, every adjacent swap of different digits) makes validate() raise. Bounded lengths / per-unit caps; de.idnr is not covered (symbolic multiset unsupported).', '5 C17'),
  'C15': ('bounded symbolic execution of every identifier module\'s validate() + z3 obligation "all returned characters < 128"',
